@@ -600,9 +600,14 @@ def replay(pid, path):
         rej = V.judge_single(scr, tmod, tcfg, ev)
         V.log(json.dumps(ev))
         mine = [dv for pr, dv in rej if pr == pid]
+        known = {k["dev"]: k for k in V.load_known() if k.get("status") == "known" and k.get("property") == pid}
+        if mine and all(dv in known for dv in mine):
+            for dv in sorted(set(mine)):
+                V.log("KNOWN-FINDING: property=%s %s: %s" % (pid, dv, known[dv].get("what", "")))
+            return 0
         if mine:
             V.log("VIOLATION property=%s replay=%s" % (pid, path))
-            V.log("  deviation=%s" % mine[0])
+            V.log("  deviation=%s" % [dv for dv in mine if dv not in known][0])
             return 1
         V.log("OK replay accepted by the specification")
         return 0
